@@ -344,15 +344,17 @@ def determinism_obligations(rep, modules=('yp_generator', 'yp_prolog_visitor', '
 
 # ---------------------------------------------------------------------------------------------
 def _expand_helpers(body, mod, depth=0):
-    """statement-level inlining for the typestate scan: a statement `helper(a, b)` calling a module-level function whose body is a
-    sequence of expression statements is replaced by that body with the parameters replaced by the argument expressions"""
+    """statement-level inlining for the typestate scan: a statement `helper(a, b)` calling a module-level function whose body is
+    straight-line code with ifs (no return value, no loop, no try) is replaced by that body with the parameters replaced by the
+    argument expressions"""
     import copy
     out = []
     for s in body:
         c = s.value if isinstance(s, ast.Expr) and isinstance(s.value, ast.Call) else None
         fd = mod.functions.get(c.func.id) if c is not None and isinstance(c.func, ast.Name) else None
         if fd is not None and depth < 3 and not c.keywords and len(c.args) == len(fd.args.args) and not fd.args.vararg \
-                and not fd.decorator_list and all(isinstance(x, ast.Expr) for x in core.strip_doc(fd.body)):
+                and not fd.decorator_list and not any(isinstance(x, (ast.Return, ast.Yield, ast.YieldFrom, ast.For, ast.While, ast.Try,
+                                                                    ast.FunctionDef, ast.Global)) for y in fd.body for x in ast.walk(y)):
             sub = dict(zip([a.arg for a in fd.args.args], c.args))
 
             class R(ast.NodeTransformer):
@@ -583,7 +585,16 @@ def debug_noninterference_obligations(rep):
             probs.append('%s does not go through _compile_prolog_from_stream' % q)
     fn = mod.functions.get('main')
     msrc = ast.unparse(fn) if fn else ''
-    if not re.search(r'for s in source:', msrc) or 'outf.write(pythoncode)' not in msrc:
+    ok_write = False
+    if fn is not None:
+        for loop in [n for n in ast.walk(fn) if isinstance(n, ast.For) and ast.unparse(n.iter) == 'source']:
+            compiled = {t.id for a in ast.walk(loop) if isinstance(a, ast.Assign) and ast.unparse(a.value).startswith('_compile_prolog_from_stream(')
+                        for t in a.targets if isinstance(t, ast.Name)}
+            for c in [n for n in ast.walk(loop) if isinstance(n, ast.Call) and ast.unparse(n.func).endswith('.write') and len(n.args) == 1]:
+                a = c.args[0]
+                if (isinstance(a, ast.Name) and a.id in compiled) or ast.unparse(a).startswith('_compile_prolog_from_stream('):
+                    ok_write = True
+    if not ok_write:
         probs.append('main does not write the code of every source in order')
     if fn is not None and any(isinstance(n, ast.Name) and n.id == 'source' and isinstance(n.ctx, (ast.Store, ast.Del)) for n in ast.walk(fn)):
         probs.append('main rebinds its `source` argument: the sources compiled are not the ones given, in the order given')
